@@ -122,6 +122,9 @@ export function makeAttr(b, rng, kind, st) {
     case 'tsAsConstArr': return leafAttr(plain(), `[${b.global({ k: 'sent' })}, ${b.fnGlobal({ k: 'sent' })}()] as const`, { dynamic: true, ts: true });
     case 'tsAsConstObj': return leafAttr(plain(), `[{ k: ${b.global({ k: 'sent' })} }] as const`, { dynamic: true, ts: true });
     case 'tsWrappedIdent': return leafAttr(plain(), rng.pick([(g) => `${g}!`, (g) => `(${g} as any)`, (g) => `${g} satisfies unknown`, (g) => `${g} as unknown as string`])(b.global({ k: 'sent' })), { dynamic: true, ts: true });
+    // unary operators over a non-constant operand vary between renders like the operand does
+    case 'unaryDyn': return leafAttr(plain(), rng.pick([(g) => `typeof ${g}`, (g) => `!${g}`, (g) => `-${g}`, (g) => `~${g}`, (g) => `+${g}`, (g) => `typeof (${g})`, (g) => `!!${g}`])(b.global({ k: 'sent' })), { dynamic: true });
+    case 'unaryConst': return leafAttr(plain(), rng.pick(['-1', '!0', 'void 0', 'typeof 1', '+"3"', '~0']), { dynamic: false });
     case 'objConst': return leafAttr(plain(), '{ a: 1, b: [2, "x"] }', { dynamic: false });
     case 'objDyn': return leafAttr(plain(), `{ a: 1, b: ${b.global({ k: 'sent' })} }`, { dynamic: true });
     case 'arrDyn': return leafAttr(plain(), `[1, ${b.fnGlobal({ k: 'sent' })}()]`, { dynamic: true });
